@@ -274,4 +274,18 @@ fire("C18", "tv-one-sided-normalisation", "R18.4", E(DIST, "total_variation", " 
 fire("C18", "symkl-drops-term", "R18.4", E(DIST, "symmetric_kl_divergence", "        result += pdf_x[i] * np.log(pdf_x[i] / pdf_y[i]) + pdf_y[i] * np.log(\n            pdf_y[i] / pdf_x[i]\n        )", "        result += pdf_x[i] * np.log(pdf_x[i] / pdf_y[i])"), "only one direction of the KL divergence is summed")
 silent("C18", "hellinger-commuted", E(DIST, "hellinger", "result += np.sqrt(x[i] * y[i])", "result += np.sqrt(y[i] * x[i])"), "commuted product")
 
+_EM_OLD1 = '    col_ind = prior_indices[\n        prior_indptr[target_gram_ind] : prior_indptr[target_gram_ind + 1]\n    ]\n'
+_EM_NEW1 = '    row_start = prior_indptr[target_gram_ind]\n    row_end = prior_indptr[target_gram_ind + 1]\n    col_ind = prior_indices[row_start:row_end]\n'
+_EM_OLD2 = '                context_ind[i + win_offset[w]] = np.searchsorted(\n                    col_ind, context + w * n_unique_tokens\n                )\n                # assert(col_ind[context_ind[i + win_offset[w]]] == context+w * n_unique_tokens)\n                if (\n                    context_ind[i + win_offset[w]] < col_ind.shape[0]\n                    and col_ind[context_ind[i + win_offset[w]]]\n                    == context + w * n_unique_tokens\n                ):\n                    window_posterior[i + win_offset[w]] = (\n                        kernels[w][i]\n                        * prior_data[\n                            prior_indptr[target_gram_ind]\n                            + context_ind[i + win_offset[w]]\n                        ]\n                    )\n'
+_EM_NEW2_OK = '                col = context + w * n_unique_tokens\n                ind = row_start + np.searchsorted(col_ind, col)\n                context_ind[i + win_offset[w]] = ind\n                if ind < row_end and prior_indices[ind] == col:\n                    window_posterior[i + win_offset[w]] = (\n                        kernels[w][i] * prior_data[ind]\n                    )\n'
+_EM_NEW2_BAD = '                col = context + w * n_unique_tokens\n                ind = row_start + np.searchsorted(col_ind, col)\n                context_ind[i + win_offset[w]] = ind\n                if ind < prior_indices.shape[0] and prior_indices[ind] == col:\n                    window_posterior[i + win_offset[w]] = (\n                        kernels[w][i] * prior_data[ind]\n                    )\n'
+_EM_OLD3 = '                posterior_data[\n                    prior_indptr[target_gram_ind] + context_ind[i + win_offset[w]]\n                ] += val\n'
+_EM_NEW3 = '                posterior_data[context_ind[i + win_offset[w]]] += val\n'
+for _p, _r in (("C10", "R10.2"), ("C11", "R11.1")):
+    fire(_p, "em-global-position-whole-array-bound", _r, [E(COO, "em_update_matrix", _EM_OLD1, _EM_NEW1), E(COO, "em_update_matrix", _EM_OLD2, _EM_NEW2_BAD), E(COO, "em_update_matrix", _EM_OLD3, _EM_NEW3)],
+         "position kept in whole-array coordinates and bounded by the whole array instead of the row")
+    silent(_p, "em-global-position-row-bound", [E(COO, "em_update_matrix", _EM_OLD1, _EM_NEW1), E(COO, "em_update_matrix", _EM_OLD2, _EM_NEW2_OK), E(COO, "em_update_matrix", _EM_OLD3, _EM_NEW3)],
+           "the same refactoring with the correct row-local bound")
+fire("C09", "encoder-vectorised-differently", "R9.6", E(MG, "contract_pair", "        if skip_char:\n            skip_char = False\n            continue\n", "        if skip_char:\n            skip_char = False\n"), "the encoder no longer skips the second half of a contracted pair the way the trainer does", allow_error=True)
+
 VARIANTS = V
